@@ -26,8 +26,13 @@ Scen == {s \in [kind : {"ins", "upd", "del", "sel"}, mode : {"auto", "explicit"}
            /\ s.reuse = 1 => (s.how = "once" /\ s.failAt \in {0, 2})
            /\ s.reuse = 2 => (s.how \in {"once", "dup"} /\ s.failAt = 0)}
 
+\* the slow leg: the business statement takes longer than the configured branch execution timeout
+\* (xa_branch_execution_timeout); the client must then end the branch, roll it back and return an error
+SlowScen == {s \in Scen : s.failAt = 0 /\ s.reg = "ok" /\ s.how = "once" /\ s.reuse = 0}
+
 VARIABLE sc
 GenInit == sc \in Scen
+GenInitSlow == sc \in SlowScen
 GenNext == UNCHANGED sc
 ScenFile == IOEnv.SCEN_FILE
 Dump ==
